@@ -201,10 +201,7 @@ def run_program(prog):
     except Exception as e:
         return [({"monitor": "graph_evaluation_raised", "cause": f"{prog['ops'][-1][0]}: {type(e).__name__}"}, f"{prog}: {e!r}"[:500], prog)]
     last = prog["ops"][-1]
-    # a batched std is computed from batch means of squares: on (nearly) constant data the difference of two almost equal
-    # numbers goes through a square root, which turns a rounding error of 1e-16 into 1e-8 -- floating point, not a defect
-    n_std = sum(1 for o in prog["ops"] if o[0] == "std" or (o[0] == "reduce_default_dim" and o[1] == "std"))
-    diff = fr.compare(got, r, check_order=last[0] in ORDER_OPS and last[0] != "broadcast", atol=1e-6 if n_std >= 2 else 1e-9)
+    diff = fr.compare(got, r, check_order=last[0] in ORDER_OPS and last[0] != "broadcast")
     if diff:
         kind = "values" if diff.startswith("value at") else ("coordinates" if diff.startswith("coordinates") else "dimensions")
         detail = ""
